@@ -45,11 +45,19 @@ class State:
     def deliver(self, n: int) -> None:
         """deliver the next n units (characters / bytes) of pending remote data, in order"""
         while n > 0 and self.pending:
-            peer, rcpt, data = self.pending[0]
+            # each peer is its own connection: order is fixed per peer, the explorer decides whose next unit arrives
+            # when several peers have data under way (default: the peer that sent first)
+            heads, seen_peers = [], set()
+            for i, p in enumerate(self.pending):
+                if p[0] not in seen_peers:
+                    seen_peers.add(p[0])
+                    heads.append(i)
+            i = heads[self.ch.pick(len(heads), "which_peer")] if len(heads) > 1 else heads[0]
+            peer, rcpt, data = self.pending[i]
             unit = data[:1]
-            self.pending[0][2] = data[1:]
-            if not self.pending[0][2]:
-                self.pending.pop(0)
+            self.pending[i][2] = data[1:]
+            if not self.pending[i][2]:
+                self.pending.pop(i)
             self.delivered[peer] = self.delivered.get(peer, data[:0]) + unit
             self.io.parties[rcpt].receive(unit, peer)
             n -= 1
